@@ -8,7 +8,7 @@ From Coq Require Import List NArith ZArith Bool String.
 From PMS Require Import Base.PyStr Base.PyInt Base.Exn Model.Codec Model.TableTypes Gen.Tables Model.Validate
   Model.Oracles Model.Hex Model.Ota Model.Gateway Spec.SerialApi Proofs.ValidateProofs Proofs.GwInv
   Spec.TreeMeaning Proofs.TreeProofs Proofs.TreeHistory Proofs.DirtyProofs Proofs.IdProofs
-  Proofs.TreeCorollaries.
+  Proofs.TreeCorollaries Base.Version Proofs.VersionCore.
 Import ListNotations.
 Open Scope Z_scope.
 
@@ -199,6 +199,36 @@ Theorem C04_setters_fallback :
     (forall z, heartbeat_of (print z) = z).
 Proof. exact setters_fallback. Qed.
 
+(* C04.4, numeric versions.  On a dotted numeric payload  [0-9]+(\.[0-9]+)*  the version held
+   for a node does not depend on the oracle tables: it is the payload itself when that is
+   numerically >= 1.4 (num_ge: section values compared left to right, a missing section
+   counting as 0), else the safe fallback "1.4"; and a node holding a dotted numeric version is
+   served with the table of the greatest supported version not numerically above it. *)
+Theorem C04_version_held_numeric :
+  forall orc,
+    (forall p, dotted_numeric p = true ->
+       safe_version orc p = if num_ge (sections p) [1%N; 4%N] then p else s2p "1.4") /\
+    (forall nd, dotted_numeric (n_pver nd) = true ->
+       node_tab orc nd = tab_of (floor_ver (sections (n_pver nd)))).
+Proof. exact (fun orc => conj (safe_version_numeric orc) (node_tab_numeric orc)). Qed.
+
+(* floor_ver l is the greatest of 1.4, 1.5, 2.0, 2.1, 2.2 that l is numerically at least;
+   1.4 when l is below all of them *)
+Theorem C04_floor_ver_is_floor :
+  forall l,
+    (num_ge l [1%N; 4%N] = true ->
+       num_ge l (ver_sections (floor_ver l)) = true /\
+       forall v, num_ge l (ver_sections v) = true -> (ver_index v <= ver_index (floor_ver l))%nat) /\
+    (num_ge l [1%N; 4%N] = false -> floor_ver l = V14).
+Proof. exact floor_ver_spec. Qed.
+
+Example C04_version_held_examples :
+  map (fun p => safe_version no_oracles (s2p p)) ["1.4.0"; "2.1.3"; "02.2"; "1.3.9"; "1"; "3"]%string
+  = map s2p ["1.4.0"; "2.1.3"; "02.2"; "1.4"; "1.4"; "3"]%string /\
+  map (fun p => floor_ver (sections (s2p p))) ["1.4.0"; "1.9"; "2"; "2.1.3"; "02.2"; "2.10"; "1.3.9"; "3"]%string
+  = [V14; V15; V20; V21; V22; V22; V14; V22].
+Proof. vm_compute. split; reflexivity. Qed.
+
 (* non-vacuity *)
 Example C04_cfg_exists : cfg_is V22 (mkConfig tab_22 true true true true) /\
                          cfg_is V14 (mkConfig tab_14 false false true false).
@@ -253,3 +283,5 @@ Print Assumptions C04_alerting_without_change.
 Print Assumptions C04_callbacks_history.
 Print Assumptions C04_callback_raise_irrelevant.
 Print Assumptions C04_setters_fallback.
+Print Assumptions C04_version_held_numeric.
+Print Assumptions C04_floor_ver_is_floor.
